@@ -4,7 +4,7 @@
 package lunarcontext
 
 // The only ContextI built by NewContext() in this tree is *contextMemory (closed world, listed as an assumption).
-//@ devirt ContextI => *contextMemory
+//@ devirtall ContextI => *contextMemory
 
 // ---- key construction: buildKey(key, suffix) = Sprintf("%s // %s", key, suffix) ----
 //@ axiom[key-inj]      forall(a, string, forall(b, string, forall(s, string, sprintf("%s // %s", a, s) == sprintf("%s // %s", b, s) ==> a == b)))
